@@ -25,6 +25,11 @@ theorem cutsGen_length {Q : Type} (sub div : α → α → α) (one : α) (sl sr
   | nil => rfl
   | cons t ts ih => simp [cutsGen, ih]
 
+theorem monoClamp_length (lt : α → α → Bool) (t0 : α) (ts : List α) : (monoClamp lt t0 ts).length = ts.length := by
+  induction ts generalizing t0 with
+  | nil => rfl
+  | cons t ts ih => simp [monoClamp, ih]
+
 theorem foldl_push_length {β : Type} (f : SState α → β → RPath α) (g : SState α → β → RPath α)
     (l : List β) (s : SState α) :
     (l.foldl (fun (st : SState α) (b : β) =>
@@ -58,8 +63,8 @@ theorem quadCase_bookkeeping (start cp e : Pt α) (o : SegOracle α) (s s' : SSt
     simp only
     have := foldl_push_length (α := α) (fun st (pc : Pt α × Pt α × Pt α) => quadTo G pc.2.1 pc.2.2 st.q)
       (fun st pc => moveTo pc.2.2 st.q)
-      (cutsGen O.sub O.div O.one O.quadL O.quadR (start, cp, e) O.zero o.inv).1 s
-    rw [cutsGen_length] at this
+      (cutsGen O.sub O.div O.one O.quadL O.quadR (start, cp, e) O.zero (monoClamp O.lt O.zero o.inv)).1 s
+    rw [cutsGen_length, monoClamp_length] at this
     split <;> simp_all
 
 /-- the same for cubic segments -/
@@ -80,8 +85,8 @@ theorem cubeCase_bookkeeping (start c1 c2 e : Pt α) (o : SegOracle α) (s s' : 
     have := foldl_push_length (α := α)
       (fun st (pc : Pt α × Pt α × Pt α × Pt α) => cubeTo G pc.2.1 pc.2.2.1 pc.2.2.2 st.q)
       (fun st pc => moveTo pc.2.2.2 st.q)
-      (cutsGen O.sub O.div O.one O.cubeL O.cubeR (start, c1, c2, e) O.zero o.inv).1 s
-    rw [cutsGen_length] at this
+      (cutsGen O.sub O.div O.one O.cubeL O.cubeR (start, c1, c2, e) O.zero (monoClamp O.lt O.zero o.inv)).1 s
+    rw [cutsGen_length, monoClamp_length] at this
     split <;> simp_all
 
 /-- once all positions are consumed a segment is copied through the builder and nothing is pushed -/
